@@ -14,10 +14,12 @@ from pathlib import Path
 VERIF = Path(__file__).resolve().parents[2]
 REPO = Path(os.environ.get("RFV_REPO", "/repo"))
 SPEC = VERIF / "spec"
-TARGET = VERIF / "target"
-HARNESS = VERIF / "harness"
-EVIDENCE = VERIF / "evidence"
-REPLAYS = VERIF / "replays"
+# (the RFV_* variables relocate the tree under test, the harness and the outputs: used only to
+# try seeded changes in a scratch copy while /repo is busy; the registered commands set none)
+TARGET = Path(os.environ.get("RFV_TARGET", VERIF / "target"))
+HARNESS = Path(os.environ.get("RFV_HARNESS", VERIF / "harness"))
+EVIDENCE = Path(os.environ["RFV_OUT"]) / "evidence" if os.environ.get("RFV_OUT") else VERIF / "evidence"
+REPLAYS = Path(os.environ["RFV_OUT"]) / "replays" if os.environ.get("RFV_OUT") else VERIF / "replays"
 KNOWN = VERIF / "known-findings.jsonl"
 SCRATCH_ROOT = Path("/var/tmp")
 GUARD = "rustfmt_verif"
